@@ -126,6 +126,8 @@ def _work(task: dict) -> str:
     import rec  # imported in the worker (installs the wrappers)
     devnull = os.open(os.devnull, os.O_WRONLY)
     os.dup2(devnull, 2)  # clingo prints "domRec ignored" notes to stderr
+    if task.get("faults"):
+        return _work_faults(task, rec)
     ops = task.get("ops")
     if ops is None:
         ops = RandomHistory(task["hseed"], task["kinds"], task["steps"], task.get("tail"), task.get("big", False))
@@ -135,6 +137,29 @@ def _work(task: dict) -> str:
     return json.dumps(tr)
 
 
+def _work_faults(task: dict, rec) -> str:
+    """
+    Fault enumeration: run the history once without faults, then once per solver call k of its last
+    call with that call failing (RuntimeError), each followed by the same call without fault and
+    limits (resume).  Returns several json lines.
+    """
+    base = rec.record_trace(task["tid"], task["tt"], task["ops"], task.get("cfg"), task.get("timeout", 20.0))
+    base["meta"] = "fault-free baseline"
+    lines = [json.dumps(base)]
+    last = task["ops"][-1]
+    calls = base["events"][-1]["solver_calls"] if len(base["events"]) == len(task["ops"]) + 1 else 0
+    resume = dict(last)
+    for k in ("size", "lvl", "stk"):
+        if k in resume:
+            resume[k] = -1
+    for k in range(1, min(calls, task.get("maxfaults", 12)) + 1):
+        ops = [dict(o) for o in task["ops"][:-1]] + [dict(last, fail_at=k), resume]
+        tr = rec.record_trace(f"{task['tid']}_f{k}", task["tt"], ops, task.get("cfg"), task.get("timeout", 20.0))
+        tr["meta"] = f"solver call {k} of the last call fails, then resume"
+        lines.append(json.dumps(tr))
+    return "\n".join(lines)
+
+
 def record_many(tasks: list[dict], outfile: str, procs: int = 16) -> dict:
     t0 = time.time()
     os.makedirs(os.path.dirname(outfile), exist_ok=True)
@@ -142,7 +167,7 @@ def record_many(tasks: list[dict], outfile: str, procs: int = 16) -> dict:
     with ProcessPoolExecutor(max_workers=procs) as ex, open(outfile, "w") as f:
         for line in ex.map(_work, tasks, chunksize=max(1, len(tasks) // (procs * 8))):
             f.write(line + "\n")
-            n += 1
+            n += line.count("\n") + 1
     return {"traces": n, "wall_s": time.time() - t0}
 
 
